@@ -64,6 +64,12 @@ def run(ck):
             for p in returning(paths, inst):
                 shape_err_verdict(ck, "C07.R1", inst, paths)
                 r = p.value
+                # N = 1 is a data set too: a numpy array indexed by a torch tensor of length N loses its row axis when N == 1
+                bad_ix = [(s_, a_, x_) for s_, a_, x_ in p.interp.interop if "N" in [str(d) for d in (x_.shape or ())] and a_.term is not None and "bases" in a_.term.syms()]
+                if c["bases"]:
+                    ck.check(not bad_ix, "C07.R1", inst + ":rows keep their own bases for every N >= 1", bad_ix[0][0] if bad_ix else ssite,
+                             "the numpy array of bases is indexed by a torch tensor of length N: for N == 1 numpy takes the one-element tensor as an integer, the result is a single row of letters "
+                             "without its row axis, and the batch's bases are then sliced letter by letter (IndexError in the gradient)", key="C07.R1|_shuffle_data|ndarray-indexed-by-tensor")
                 srcs = getattr(r, "sources", None)
                 want_n = 3 if c["bases"] else 2
                 if not isinstance(r, VUnknown) or srcs is None or len(srcs) != want_n or not all(isinstance(x, VList) for x in srcs):
